@@ -25,6 +25,11 @@ ASSUMPTIONS = ["a TripleStream fed quads is judged on the triples (graph names a
                "rdflib inputs compared as sets"]
 PROBES = ["accepted", "raised", "nondelimited", "explicit_flow", "namespace_runs"]
 SHRINK_LISTS = ["ops"]
+EXTRA_COVERAGE = {"lattice_points_total": 3 * 8 * 2 * 7 * (5 + 6),
+                  "lattice_note": "3 stream classes x 8 logical types x 2 delimited x 7 flows (inferred + 6 classes) x "
+                                  "(5 generic + 6 rdflib entry-point variants) = 3696 points; distinct_nontrivial counts "
+                                  "the points that were ACCEPTED (no exception) with >= 2 statements; the rest of the "
+                                  "visited points raised (probe 'raised')"}
 
 GENERIC_ENTRIES = ["frames_gen", "frames_gen", "frames_sink", "flat_file", "flat_frames", "grouped_file"]
 RDFLIB_ENTRIES = ["graph_serialize", "graph_serialize", "frames_gen", "frames_sink", "flat_file", "grouped_file"]
